@@ -83,4 +83,92 @@ theorem zipWith_eq_range_map {α β γ : Type} (f : α → β → γ) (a : List 
   simp only [List.length_zipWith, ← h, Nat.min_self] at h1
   simp [List.getD_eq_getElem?_getD, h1, h ▸ h1]
 
+/-- **A loop that rewrites position `i` in iteration `i`** (the new value may depend on the old
+one at that position) computes the pointwise image of the initial list. -/
+theorem foldl_pointwise {α : Type} (n : Nat) (d : α) (G : Nat → α → α) (body : List α → Nat → List α) (l0 : List α)
+    (hl0 : l0.length = n)
+    (hbody : ∀ l i, i < n → l.length = n →
+      (body l i).length = n ∧ ∀ j, j < n → (body l i).getD j d = if j = i then G i (l.getD i d) else l.getD j d) :
+    (List.range n).foldl body l0 = (List.range n).map (fun i => G i (l0.getD i d)) := by
+  have inv := foldl_range_inv
+    (fun k (l : List α) => l.length = n ∧ ∀ j, j < n → l.getD j d = if j < k then G j (l0.getD j d) else l0.getD j d)
+    body l0 n ⟨hl0, fun j _ => by simp⟩
+    (by
+      intro k l hk ⟨hlen, hpt⟩
+      obtain ⟨h1, h2⟩ := hbody l k hk hlen
+      refine ⟨h1, ?_⟩
+      intro j hj
+      rw [h2 j hj]
+      by_cases hjk : j = k
+      · subst hjk
+        rw [if_pos rfl, hpt j hj, if_neg (Nat.lt_irrefl j), if_pos (Nat.lt_succ_self j)]
+      · rw [if_neg hjk, hpt j hj]
+        have hiff : (j < k + 1) ↔ (j < k) := by omega
+        simp only [hiff])
+  obtain ⟨hlen, hpt⟩ := inv
+  apply ext_getD _ _ d (by simp [hlen])
+  intro j hj
+  rw [hlen] at hj
+  rw [hpt j hj, if_pos hj, getD_map_range _ _ _ _ hj]
+
+theorem getD_set_self {α : Type} (l : List α) (i : Nat) (v d : α) (h : i < l.length) : (l.set i v).getD i d = v := by
+  rw [getD_set]; simp [h]
+
+theorem getD_set_ne {α : Type} (l : List α) (i j : Nat) (v d : α) (h : i ≠ j) : (l.set i v).getD j d = l.getD j d := by
+  rw [getD_set]; simp [h]
+
+/-- **A loop that fills two blocks at once**: iteration `k` writes position `k` and position
+`k + m` of a list of length `2m`. -/
+theorem foldl_two_blocks {α : Type} (m : Nat) (d : α) (g h : Nat → α) (body : List α → Nat → List α)
+    (hbody : ∀ l k, k < m → l.length = 2 * m → body l k = (l.set k (g k)).set (k + m) (h k)) :
+    (List.range m).foldl body (List.replicate (2 * m) d) = (List.range m).map g ++ (List.range m).map h := by
+  have inv := foldl_range_inv
+    (fun k (l : List α) => l.length = 2 * m ∧ ∀ j, j < 2 * m → l.getD j d =
+      if j < m then (if j < k then g j else d) else (if j - m < k then h (j - m) else d))
+    body (List.replicate (2 * m) d) m
+    ⟨List.length_replicate, fun j hj => by rw [getD_replicate _ _ _ _ hj]; simp⟩
+    (by
+      intro k l hk ⟨hlen, hpt⟩
+      rw [hbody l k hk hlen]
+      refine ⟨by simp [hlen], ?_⟩
+      intro j hj
+      rw [getD_set, getD_set]
+      simp only [List.length_set, hlen]
+      by_cases hjm : j < m
+      · have h1 : ¬ (k + m = j ∧ k + m < 2 * m) := by omega
+        rw [if_neg h1, if_pos hjm]
+        by_cases hkj : k = j
+        · subst hkj
+          rw [if_pos ⟨rfl, by omega⟩, if_pos (Nat.lt_succ_self k)]
+        · have h2 : ¬ (k = j ∧ k < 2 * m) := fun hh => hkj hh.1
+          rw [if_neg h2, hpt j hj, if_pos hjm]
+          have hiff : (j < k + 1) ↔ (j < k) := by omega
+          simp only [hiff]
+      · rw [if_neg hjm]
+        by_cases hkj : k + m = j
+        · subst hkj
+          rw [if_pos ⟨rfl, by omega⟩]
+          have : k + m - m = k := by omega
+          rw [this, if_pos (Nat.lt_succ_self k)]
+        · have h1 : ¬ (k + m = j ∧ k + m < 2 * m) := fun hh => hkj hh.1
+          have h2 : ¬ (k = j ∧ k < 2 * m) := by omega
+          rw [if_neg h1, if_neg h2, hpt j hj, if_neg hjm]
+          have hiff : (j - m < k + 1) ↔ (j - m < k) := by omega
+          simp only [hiff])
+  obtain ⟨hlen, hpt⟩ := inv
+  apply ext_getD _ _ d (by simp [hlen]; omega)
+  intro j hj
+  rw [hlen] at hj
+  rw [hpt j hj]
+  by_cases hjm : j < m
+  · rw [if_pos hjm, if_pos hjm]
+    simp only [List.getD_eq_getElem?_getD]
+    rw [List.getElem?_append_left (by simpa using hjm)]
+    simp [hjm]
+  · rw [if_neg hjm, if_pos (by omega)]
+    simp only [List.getD_eq_getElem?_getD]
+    rw [List.getElem?_append_right (by simp; omega)]
+    have : j - m < m := by omega
+    simp [this]
+
 end GoIpa.Loop
